@@ -12,7 +12,7 @@
 //! exactly their target, applied iff the target is alive at that point; the second maintain runs
 //! nothing.
 
-use crate::purge::{any_world, Model, W};
+use crate::purge::{any_world_g, Model, W};
 use crate::*;
 use std::mem::forget;
 
@@ -196,7 +196,12 @@ fn check_model(w: &W, ex: &Exp) {
 
 /// K = 2 or 3 queued actions (`acts[k] = (kind, target)`, kind 255 = none).
 pub fn lazy_step(acts: [(u8, usize); 3], setup_read: bool, pat: [u8; NI]) {
-    let mut w = any_world(setup_read, pat);
+    lazy_step_g(acts, setup_read, pat, false)
+}
+
+/// `concrete_gens`: see `env::pattern_entities_into_g`.
+pub fn lazy_step_g(acts: [(u8, usize); 3], setup_read: bool, pat: [u8; NI], concrete_gens: bool) {
+    let mut w = any_world_g(setup_read, pat, concrete_gens);
     w.world.insert(Log::default());
     // expectation at the moment the lazy actions run: entities merged, deletions purged
     let mut ex = Exp { ma: w.ma, mb: w.mb, alive: [false; NI], gen: [0; NI], deleted: [false; NI] };
